@@ -9,6 +9,20 @@ BASELINE = ("cd /repo && env -u PYCRAFT_VERIF /venv/bin/python -m pytest -ra -q 
             "--timeout=900 --continue-on-collection-errors")
 
 CHECKS = {
+    'C17': dict(
+        technique='SHA-1 and Java signed-hex written in TLA+ (SHA1.tla, SignedHex.tla); TLC enumerates the formatter and its rows '
+                  'are replayed into minecraft_sha1_hash_digest (S->I); recorded update() calls and results of the real '
+                  'generate_verification_hash are recomputed by TLC with its own SHA-1 (I->S)',
+        text='SHA1.tla implements FIPS 180 over 16-bit limb pairs (ASSUMEs: the "abc" and empty vectors); SignedHex.tla implements '
+             'BigInteger.toString(16) via two\'s complement on byte sequences. HashCases.tla is a transition system over every 1- and '
+             '2-byte digest plus structured 20-byte digests (FormatShape invariant) whose rows are replayed into the real formatter, '
+             'and over observations of the real function - the three published vectors, digests found by search with a set top bit, a '
+             'leading zero nibble and a leading zero byte, and seeded random (id, secret, key) triples with non-ASCII ids - where a '
+             'recording proxy for encryption.sha1 provides the update() calls; TLC requires updates = <<utf8(id), secret, key>> and '
+             'result = SignedHex(SHA1(concatenation)).',
+        note='Trusted: TLC arithmetic and Bitwise overrides. hashlib is checked, not trusted. Use of the hash in the join request is '
+             'C10\'s.',
+        design='5/C17'),
     'C14': dict(
         technique='TLA+ model of the exception path (ExcChain.tla, one action per step of except / handler chain / final handler / '
                   'record / interrupt check / re-raise / finally) explored exhaustively by TLC; scenarios replayed into a real '
